@@ -40,3 +40,7 @@ def run(repo, res, tier):
     # the lexer works with the parser's own grammar and decoder
     from .. import hookrules as _hkla
     _hkla.rule_lexer_args(repo, res)
+    # pos / lineno / colno of a LexerError are positions in the caller's text; the entry points hand the text on as it is
+    from .. import lexrules as _lx15, entryrules as _er15
+    _lx15.rule_lex_text(repo, res)
+    _er15.rule_f1(repo, res, "__init__")
